@@ -16,7 +16,7 @@ for m in $ids; do
   res=""
   for q in $props; do
     case " $claimed " in *" $q "*) ;; *) res="$res $q:unclaimed"; continue;; esac
-    out=$(GOCV_EVIDENCE_DIR="$S/ev" /verif/bin/gocv check -repo "$S/repo" -prop $q -tier quick 2>&1)
+    out=$(GOCV_T2=25 GOCV_EVIDENCE_DIR="$S/ev" /verif/bin/gocv check -repo "$S/repo" -prop $q -tier quick 2>&1)
     v=$(echo "$out" | grep -c "^VIOLATION")
     first=$(echo "$out" | grep "^VIOLATION" | head -1 | sed 's/.*replay=\/verif\/replay\///' | cut -c1-110)
     res="$res $q:violations=$v[$first]"
